@@ -550,7 +550,59 @@ def standin_tagged_twins(tier, seed):
 standin_tagged_twins.prop = "C12"
 
 
-STANDINS = [standin_subcircuits, standin_key_algebra, standin_params_and_loops, standin_unrolled, standin_tagged_twins]
+def standin_prefixed_circuits(tier, seed):
+    """cirq.with_key_path_prefix on whole circuits and moments whose controls read keys measured INSIDE them: every operation's measured and read
+    keys get the prefix (measurement, control, tagged control, sympy and bit-mask conditions; sub-circuits reading enclosing keys are resolved when unrolled and are not part of this law), the result equals the unrolled
+    sub-circuit with that parent path, prefix-then-wrap equals wrap-then-prefix, and the records keep their distribution under the renamed keys"""
+    import cirq
+    import sympy
+
+    q = cirq.LineQubit.range(3)
+    cases, fails = 0, []
+    bodies = {
+        "measure, control": cirq.Circuit(cirq.X(q[0]), cirq.measure(q[0], key="m"), cirq.X(q[1]).with_classical_controls("m"), cirq.measure(q[1], key="out")),
+        "measure, tagged control, sympy control": cirq.Circuit(cirq.H(q[0]), cirq.measure(q[0], q[2], key="m"), cirq.X(q[1]).with_classical_controls("m").with_tags("t"),
+                                                               cirq.Z(q[2]).with_classical_controls(sympy.Symbol("m") > 1), cirq.measure(q[1], key="out")),
+        "control in the moment after its measurement, bit-mask": cirq.Circuit(cirq.Moment(cirq.X(q[0])), cirq.Moment(cirq.measure(q[0], q[1], key="m")), cirq.Moment(cirq.X(q[2]).with_classical_controls(cirq.BitMaskKeyCondition("m", bitmask=2))), cirq.Moment(cirq.measure(q[2], key="out"))),
+    }
+    for (bname, body), path in itertools.product(bodies.items(), (("a",), ("a", "b"))):
+        cases += 1
+        args = dict(body=bname, prefix=list(path))
+        try:
+            pre = cirq.with_key_path_prefix(body, path)
+            per_moment = cirq.Circuit(cirq.with_key_path_prefix(m, path) for m in body)
+            problem = None
+            for op0, op1 in zip(body.all_operations(), pre.all_operations()):
+                want_m = {k.with_key_path_prefix(*path) for k in cirq.measurement_key_objs(op0)}
+                want_c = {k.with_key_path_prefix(*path) for k in cirq.control_keys(op0)}
+                if set(cirq.measurement_key_objs(op1)) != want_m or set(cirq.control_keys(op1)) != want_c:
+                    problem = f"after prefixing, {op0!r} measures {sorted(map(str, cirq.measurement_key_objs(op1)))} and reads {sorted(map(str, cirq.control_keys(op1)))}; expected {sorted(map(str, want_m))} / {sorted(map(str, want_c))}"
+                    break
+            if problem is None and per_moment != pre:
+                problem = "prefixing the circuit differs from prefixing its moments one by one"
+            if problem is None:
+                unrolled = cirq.CircuitOperation(body.freeze(), parent_path=path).mapped_circuit(deep=True)
+                flat = lambda c_: cirq.Circuit(cirq.decompose(c_, keep=lambda o: not isinstance(o.untagged, cirq.CircuitOperation), on_stuck_raise=None))
+                if flat(pre) != flat(unrolled):
+                    problem = "the prefixed circuit differs from the unrolled sub-circuit carrying the same parent path"
+            if problem is None:
+                got = refsim.ref_distribution(cirq.Circuit(o.untagged for o in cirq.decompose(pre, keep=lambda o: not isinstance(o.untagged, cirq.CircuitOperation), on_stuck_raise=None)), list(q))
+                want = refsim.ref_distribution(cirq.Circuit(o.untagged for o in cirq.decompose(body, keep=lambda o: not isinstance(o.untagged, cirq.CircuitOperation), on_stuck_raise=None)), list(q))
+                ren = lambda d_: {tuple(sorted((k.split(":")[-1], v) for k, v in key)): p_ for key, p_ in d_.items()}
+                if not refsim.dist_close(ren(got), ren(want), atol=1e-7):
+                    problem = "the records of the prefixed circuit do not have the distribution of the original's (keys compared by their last component)"
+            if problem:
+                fails.append(dict(args=args, failed="prefixed-circuit", clause=problem))
+        except refsim.ControlBeforeMeasurement as ex:
+            fails.append(dict(args=args, failed="prefixed-circuit", clause=f"the prefixed circuit is not a valid program: {ex}"))
+        except Exception as ex:
+            fails.append(dict(args=args, failed="prefixed-circuit-raised", clause=f"{ex!r}"))
+    return dict(function="cirq-core/cirq/circuits/{moment,circuit}.py:_with_key_path_prefix_", case="prefixed-circuits", bound="3 bodies whose controls read keys measured inside them x 2 prefixes, circuit-level and moment-level",
+                cases=cases, distinct=cases, failures=len(fails), exhaustive=True, _fails=fails[:4])
+standin_prefixed_circuits.prop = "C12"
+
+
+STANDINS = [standin_subcircuits, standin_key_algebra, standin_params_and_loops, standin_unrolled, standin_tagged_twins, standin_prefixed_circuits]
 
 
 def _replay_scoping(ob, seed):
